@@ -8,12 +8,12 @@ LEVEL_TEXT = ("Every ODE entry point that takes a graph is run on relabelled / r
               "fast_nonMarkov_SIR and fast_nonMarkov_SIS with tie-free rule tables defined on the structure must give identical per-node histories up to the relabelling.")
 LEVEL_NOTE = "graphs: all shapes on 4 nodes, trees on 5 (6), C5,C6,K33,prism; failures on the canonical labelling itself belong to C06 and are skipped here"
 RULE = "one evaluation = one (entry point, return mode, relabelled copy); non-trivial = all"
-BOUNDS = {"quick": "7 label families; every 3rd of the 4! node orders, every 4th edge order; 3 requests; node-level models additionally with edge/node weights and an explicit nodelist in yet another order; simulators under a tie-free rule table and 3 tie-prone integer rule tables, with and without a finite tmax", "thorough": "all node and edge orders; all trees on 6 nodes"}
+BOUNDS = {"quick": "7 label families; every 3rd of the 4! node orders, every 4th edge order; 3 requests; node-level models additionally with edge/node weights and an explicit nodelist in yet another order; simulators under a tie-free rule table and 3 tie-prone integer rule tables, with and without a finite tmax; 3 label families again with every mention of a node an equal-but-not-identical object; seeded twin runs (3 seeds from VERIF_SEED) of every stochastic simulator on 6- and 9-node graphs with shared vs fresh label objects, with and without self-loops", "thorough": "all node and edge orders; all trees on 6 nodes"}
 ASSUMPTIONS = ["node labels are hashable; tuples are never themselves nodes of the graph's node set ambiguity (documented EoN caveat)"]
 
 
 def specs(tier, seed):
-    return fr.specs(tier)
+    return fr.specs(tier, seed)
 
 
 def run_spec(spec):
